@@ -27,6 +27,15 @@ type Fault struct {
 	Kind     string `json:"kind"`
 	PerMille int    `json:"pm,omitempty"`  // cut / flip position inside the body
 	Xor      int    `json:"xor,omitempty"` // non-zero byte mask for corrupt
+	// Timing of the hub-side handling of this call (any kind that reaches the
+	// receiver). The hub's storage is slow once: the SlowAt-th file-system
+	// operation of this request stalls for SlowUs microseconds.
+	SlowUs int `json:"slow_us,omitempty"`
+	SlowAt int `json:"slow_at,omitempty"`
+	// linger only: the hub notices that the client went away (its request
+	// context is cancelled) this many microseconds after the client gave up;
+	// 0 = it never notices and works the request to the end.
+	CtxUs int `json:"ctx_us,omitempty"`
 }
 
 // FileSpec is one immutable spoke file.
@@ -98,11 +107,57 @@ func genFault(r *simrt.Rand) Fault {
 	x := r.Intn(tot)
 	for _, k := range putKinds {
 		if x < k.w {
-			return Fault{Kind: k.k, PerMille: r.Intn(1000), Xor: 1 + r.Intn(255)}
+			f := Fault{Kind: k.k, PerMille: r.Intn(1000), Xor: 1 + r.Intn(255)}
+			if k.k == "linger" {
+				lingerTiming(r, &f)
+			}
+			return f
 		}
 		x -= k.w
 	}
 	return Fault{Kind: "none"}
+}
+
+var (
+	slowChoices = []int{0, 0, 50, 2_000, 100_000, 5_000_000}
+	ctxChoices  = []int{0, 0, 1, 30, 1_000, 30_000, 1_000_000}
+)
+
+// lingerTiming draws how the hub experiences a request whose client timed
+// out: one slow storage operation somewhere in it, and whether/when the hub
+// learns that the client is gone.
+func lingerTiming(r *simrt.Rand, f *Fault) {
+	f.SlowUs = slowChoices[r.Intn(len(slowChoices))]
+	if f.SlowUs > 0 {
+		f.SlowAt = r.Intn(14)
+	}
+	f.CtxUs = ctxChoices[r.Intn(len(ctxChoices))]
+}
+
+// genStorm is the retry pattern of a spoke behind a hub that is slower than
+// the spoke's request timeout: the k first deliveries of one file all time out
+// on the client side while the hub is still busy with (or has queued) them, so
+// every pass re-sends the file next to the earlier copies.
+func genStorm(r *simrt.Rand, k int) []Fault {
+	var out []Fault
+	for i := 0; i < k; i++ {
+		f := Fault{Kind: "linger", PerMille: r.Intn(1000), Xor: 1 + r.Intn(255)}
+		lingerTiming(r, &f)
+		if r.Chance(50) {
+			f.Xor = 6 * (1 + r.Intn(40)) // reaches the receiver at once
+		}
+		if i == 0 && r.Chance(60) {
+			// the first copy is the slow one
+			f.SlowUs = []int{2_000, 100_000, 5_000_000, 5_000_000}[r.Intn(4)]
+			f.SlowAt = r.Intn(8)
+		}
+		if i > 0 && r.Chance(50) {
+			// a queued copy whose client disconnect is noticed soon
+			f.CtxUs = []int{1, 30, 1_000, 30_000}[r.Intn(4)]
+		}
+		out = append(out, f)
+	}
+	return out
 }
 
 func genC27(r *simrt.Rand, tier string) any {
@@ -140,6 +195,19 @@ func genC27(r *simrt.Rand, tier string) any {
 	for i := 0; i < nInit; i++ {
 		p.Files = append(p.Files, mk(i))
 	}
+	stormRuns := 0
+	if !calm && r.Chance(30) {
+		k := 2 + r.Intn(3)
+		j := r.Intn(nInit)
+		p.Files[j].Put = append(genStorm(r, k), p.Files[j].Put...)
+		if len(p.Files[j].Put) > 6 {
+			p.Files[j].Put = p.Files[j].Put[:6]
+		}
+		if p.Knobs.MaxAttempts <= k {
+			p.Knobs.MaxAttempts = k + 1 + r.Intn(3)
+		}
+		stormRuns = k + 1
+	}
 	live := func() []int { // candidates for events: any file index so far
 		out := make([]int, len(p.Files))
 		for i := range out {
@@ -163,16 +231,23 @@ func genC27(r *simrt.Rand, tier string) any {
 	if tier == "thorough" {
 		nSteps = 1 + r.Intn(8)
 	}
+	if nSteps < stormRuns {
+		nSteps = stormRuns
+	}
 	for s := 0; s < nSteps; s++ {
 		x := r.Intn(100)
+		inStorm := s < stormRuns && x < 85
 		switch {
-		case x < 55 || s == 0:
+		case x < 55 || s == 0 || inStorm:
 			st := Step{Kind: "run"}
 			if !calm {
 				if r.Chance(35) {
 					st.Crash = 1 + r.Intn([]int{30, 120, 400, 1200}[r.Intn(4)])
 				}
 				n := r.Intn(3)
+				if inStorm && r.Chance(60) {
+					n = 0
+				}
 				for k := 0; k < n; k++ {
 					st.Rec = append(st.Rec, []string{"none", "drop-before", "drop-after"}[r.Intn(3)])
 				}
@@ -325,6 +400,18 @@ func shrinkC27(planAny any) []any {
 				out = append(out, q)
 			}
 		}
+		for j := range f.Put {
+			if f.Put[j].SlowUs != 0 {
+				q := clonePlan(p)
+				q.Files[i].Put[j].SlowUs, q.Files[i].Put[j].SlowAt = 0, 0
+				out = append(out, q)
+			}
+			if f.Put[j].CtxUs != 0 {
+				q := clonePlan(p)
+				q.Files[i].Put[j].CtxUs = 0
+				out = append(out, q)
+			}
+		}
 		if n := len(f.Put); n > 0 && f.Put[n-1].Kind == "none" {
 			q := clonePlan(p)
 			q.Files[i].Put = q.Files[i].Put[:n-1]
@@ -390,7 +477,14 @@ func descC27(planAny any) any {
 		}
 		var fl []string
 		for _, x := range f.Put {
-			fl = append(fl, x.Kind)
+			d := x.Kind
+			if x.SlowUs > 0 {
+				d += fmt.Sprintf("(slow %dus at op %d)", x.SlowUs, x.SlowAt)
+			}
+			if x.CtxUs > 0 {
+				d += fmt.Sprintf("(ctx %dus)", x.CtxUs)
+			}
+			fl = append(fl, d)
 		}
 		files = append(files, fmt.Sprintf("#%d %dB put[%s]", i, f.Size, strings.Join(fl, ",")))
 	}
